@@ -59,6 +59,12 @@ pub struct Case {
     search_at: Option<u32>,
     injections: Vec<Inj>,
     rt_seed: u64,
+    /// final phase: every answering party falls silent; this many ms after the last contact has
+    /// turned questionable (15 min after its last answer) a search is started, and then a
+    /// response is injected for each of the 2048 action prefixes of the first allocation block
+    /// that never appeared on the wire
+    #[serde(default)]
+    aged_sweep: Option<u16>,
 }
 
 pub struct Unasked;
@@ -105,9 +111,10 @@ impl Stage for Unasked {
             proptest::option::weighted(0.6, prop_oneof![Just(0u32), 0u32..3000, 3000u32..15_000]),
             vec(inj, 2..24),
             any::<u64>(),
+            proptest::option::weighted(0.12, prop_oneof![Just(0u16), 0u16..3_000, 0u16..12_000]),
         )
-            .prop_map(|((v6, read_only, live, silent, routers_live, routers_silent), names, hostile_lists, search_at, injections, rt_seed)| Case {
-                v6, read_only, live, silent, routers_live, routers_silent, names, hostile_lists, search_at, injections, rt_seed,
+            .prop_map(|((v6, read_only, live, silent, routers_live, routers_silent), names, hostile_lists, search_at, injections, rt_seed, aged_sweep)| Case {
+                v6, read_only, live, silent, routers_live, routers_silent, names, hostile_lists, search_at, injections, rt_seed, aged_sweep,
             })
             .boxed()
     }
@@ -144,12 +151,17 @@ impl Stage for Unasked {
             let legit_values: Arc<Mutex<HashSet<SocketAddr>>> = Default::default();
             // answering contacts and routers
             let answerers: Vec<(Id, SocketAddr)> = live.iter().copied().chain(routers_live.iter().enumerate().map(|(i, a)| (rid(300 + i as u64), *a))).collect();
+            let all_silent = Arc::new(std::sync::atomic::AtomicBool::new(false));
             for (n, (id, a)) in answerers.iter().enumerate() {
                 let named = named.clone();
                 let id = *id;
                 let lv = legit_values.clone();
                 let v6 = c.v6;
+                let all_silent = all_silent.clone();
                 spawn_puppet(&net, *a, move |_raw, msg, from, _now| {
+                    if all_silent.load(std::sync::atomic::Ordering::Relaxed) {
+                        return vec![];
+                    }
                     let Some(m) = msg else { return vec![] };
                     let KBody::Query(q) = &m.body else { return vec![] };
                     // rotate through the (possibly long) name list, 8..40 names per answer
@@ -376,12 +388,65 @@ impl Stage for Unasked {
                 }
                 check!("after the find_node probes".to_string());
             }
+            if let Some(delta) = c.aged_sweep {
+                all_silent.store(true, std::sync::atomic::Ordering::Relaxed);
+                // the last answer any contact gave
+                let log = net.log();
+                let t_last = log
+                    .iter()
+                    .rev()
+                    .find(|e| e.to == node && e.kind == EvKind::Deliver && answering.contains(&e.from) && matches!(KMsg::decode(&e.bytes), Ok(KMsg { body: KBody::Resp(_), .. })))
+                    .map(|e| e.ms())
+                    .unwrap_or(net.now_ms());
+                net.sleep_until(Duration::from_millis(t_last + 900_000 + delta as u64)).await;
+                let d = dht.clone();
+                tokio::spawn(async move {
+                    let mut s = d.search(InfoHash::from([0x5E; 20]), false);
+                    while s.next().await.is_some() {}
+                });
+                tokio::time::sleep(Duration::from_millis(5)).await;
+                // action prefixes seen on the wire; the sweep is sound once both the bootstrap's and
+                // the refresh's prefix have been used (the only activities that send find_node)
+                let log = net.log();
+                let mut seen: HashSet<Vec<u8>> = HashSet::new();
+                let mut find_node_prefixes: HashSet<Vec<u8>> = HashSet::new();
+                for e in log.iter().filter(|e| e.from == node && matches!(e.kind, EvKind::Send { .. } | EvKind::SendFailed)) {
+                    if let Ok(KMsg { tid, body: KBody::Query(q) }) = KMsg::decode(&e.bytes) {
+                        if tid.len() == 8 {
+                            seen.insert(tid[..5].to_vec());
+                            if matches!(q, KQuery::FindNode { .. }) {
+                                find_node_prefixes.insert(tid[..5].to_vec());
+                            }
+                        }
+                    }
+                }
+                if find_node_prefixes.len() >= 2 {
+                    let src = fam_addr(c.v6, 4999, 8200);
+                    strangers.insert(src);
+                    let fname = fam_addr(c.v6, 5999, 7300);
+                    forged_names.insert(fname);
+                    let (nodes, nodes6) = node_lists(&[(rid(8999), fname)]);
+                    for p in 0u16..2048 {
+                        let prefix = vec![0, 0, 0, (p >> 8) as u8, p as u8];
+                        if seen.contains(&prefix) {
+                            continue;
+                        }
+                        let mut tid = prefix;
+                        tid.extend_from_slice(&[0, 0, 1]);
+                        let r = KResp { id: rid(8998).to_vec(), nodes: nodes.clone(), nodes6: nodes6.clone(), ..Default::default() };
+                        net.inject(src, node, &resp(&tid, r).encode());
+                    }
+                    net.settle().await;
+                    classes.insert("sweep-of-unused-action-prefixes");
+                    check!(format!("after responses under every action prefix of the first block that never appeared on the wire ({} seen), sent {} ms after all contacts had turned questionable", seen.len(), delta));
+                }
+            }
             let nt = busy && classes.len() >= 2;
             Outcome::pass(nt).labels(classes.iter().map(|c| format!("class:{c}")))
         })
     }
     fn rule(&self) -> String {
-        "one real node (serving/read-only, v4/v6) with 0..6 answering and 0..3 silent contacts and 0..3 literal routers (answering or silent); answering parties name up to 260 fresh silent addresses, and optionally the node's own id, router addresses, duplicates, one id under two addresses, in every node list; optionally a search is started; 2..23 injections at generated times from 0 ms (before any request) to 20 s: unsolicited queries of every kind from fresh strangers, and responses (carrying unique values, tokens and named nodes) whose transaction id is short (0..7 B), long (9..32 B), 8 bytes with an action id >= 2^20, a transaction id the node really just sent plus 1..4 extra bytes, a truncated real one, or a real one with one of its two leading bytes changed (same message id, action id >= 2^24), from a stranger or from the address the real query went to; and queries from the silent addresses that answering parties name (hearsay contacts, by then possibly dropped). Oracle after every injection, 40 s later and after find_node probes: contacts contain only configured contacts and addresses named by parties that were asked; never a stranger, a name from a foreign response, a router, the own id; good only for parties that answered; the search yields only values from genuine answers; a query never brings its sender (back) into the contacts. Non-trivial: the node had contacts or a running search, and >= 2 injection classes".into()
+        "one real node (serving/read-only, v4/v6) with 0..6 answering and 0..3 silent contacts and 0..3 literal routers (answering or silent); answering parties name up to 260 fresh silent addresses, and optionally the node's own id, router addresses, duplicates, one id under two addresses, in every node list; optionally a search is started; 2..23 injections at generated times from 0 ms (before any request) to 20 s: unsolicited queries of every kind from fresh strangers, and responses (carrying unique values, tokens and named nodes) whose transaction id is short (0..7 B), long (9..32 B), 8 bytes with an action id >= 2^20, a transaction id the node really just sent plus 1..4 extra bytes, a truncated real one, or a real one with one of its two leading bytes changed (same message id, action id >= 2^24), from a stranger or from the address the real query went to; and queries from the silent addresses that answering parties name (hearsay contacts, by then possibly dropped); in 12 % of the cases a final phase: all parties fall silent, 0..12 s after the last contact has aged to questionable a search is started, and a response is injected under each of the 2048 action prefixes of the first allocation block that never appeared on the wire (only when find_node queries under >= 2 prefixes were seen, i.e. bootstrap and refresh have both sent). Oracle after every injection, 40 s later and after find_node probes: contacts contain only configured contacts and addresses named by parties that were asked; never a stranger, a name from a foreign response, a router, the own id; good only for parties that answered; the search yields only values from genuine answers; a query never brings its sender (back) into the contacts. Non-trivial: the node had contacts or a running search, and >= 2 injection classes".into()
     }
 }
 
